@@ -493,13 +493,23 @@ impl Rule {
                 optimiser::coalesce(self.detection.expression, &self.detection.identifiers);
             self.detection.identifiers.clear();
         }
+        // NOTE: all(X) / of(X, n) count the entries of an identifier that was not inlined, so its
+        // entries are optimised one by one and the group that holds them stays as it is.
+        fn entries(e: Expression, f: fn(Expression) -> Expression) -> Expression {
+            match e {
+                Expression::BooleanGroup(symbol, expressions) => {
+                    Expression::BooleanGroup(symbol, expressions.into_iter().map(f).collect())
+                }
+                e => f(e),
+            }
+        }
         if options.shake {
             self.detection.expression = optimiser::shake(self.detection.expression);
             self.detection.identifiers = self
                 .detection
                 .identifiers
                 .into_iter()
-                .map(|(k, v)| (k, optimiser::shake(v)))
+                .map(|(k, v)| (k, entries(v, optimiser::shake)))
                 .collect();
         }
         if options.rewrite {
@@ -517,7 +527,7 @@ impl Rule {
                 .detection
                 .identifiers
                 .into_iter()
-                .map(|(k, v)| (k, optimiser::matrix(v)))
+                .map(|(k, v)| (k, entries(v, optimiser::matrix)))
                 .collect();
         }
         self.optimised = true;
